@@ -169,9 +169,25 @@ def ensure_built(log=print):
         # 5. harness and CLI against /repo
         hdir = os.path.join(VERIF, "harness")
         shutil.copy(os.path.join(REPO, "go.sum"), os.path.join(hdir, "go.sum"))
-        rc, o, e = sh(["go", "build", "-o", os.path.join(cdir, "harness"), "."], cwd=hdir)
+        modflag = []
+        if REPO != "/repo":
+            # checks pointed at another tree (VERIF_REPO, used for seeded changes in scratch worktrees)
+            mf = os.path.join(cdir, "harness.mod")
+            open(mf, "w").write(open(os.path.join(hdir, "go.mod")).read().replace("=> /repo", "=> " + REPO))
+            shutil.copy(os.path.join(REPO, "go.sum"), os.path.join(cdir, "harness.sum"))
+            modflag = ["-modfile=" + mf]
+        rc, o, e = sh(["go", "build"] + modflag + ["-o", os.path.join(cdir, "harness"), "."], cwd=hdir)
         if rc != 0:
             info["go_fail"].append("harness: " + e[-800:])
+        # 5b. the same harness with the overlay hooks (fast mode: in-memory loads, no `go list`); the
+        # hook files are added to the build with -overlay, nothing is written into /repo.  When it
+        # does not build (a refactoring the hooks do not follow) the fast stage is simply skipped.
+        ov = os.path.join(cdir, "overlay.json")
+        json.dump({"Replace": {
+            os.path.join(REPO, "internal", "registry", "zz_verif_hook.go"): os.path.join(hdir, "overlay", "registry_hook.go.txt"),
+            os.path.join(REPO, "pkg", "moq", "zz_verif_hook.go"): os.path.join(hdir, "overlay", "moq_hook.go.txt")}}, open(ov, "w"))
+        rc, o, e = sh(["go", "build"] + modflag + ["-tags", "verif", "-overlay", ov, "-o", os.path.join(cdir, "harnessf"), "."], cwd=hdir)
+        info["fast_harness"] = (rc == 0) or ("does not build: " + e[-600:])
         rc, o, e = sh(["go", "build", "-o", os.path.join(cdir, "moq"), "."], cwd=REPO)
         if rc != 0:
             info["go_fail"].append("moq: " + e[-800:])
